@@ -1,7 +1,7 @@
 (* C09 — OVF files round-trip fields and follow the OVF 1.0/2.0 format.
    ONLY statements, each closed by [exact] of a lemma proved in proofs/, followed by
    Print Assumptions. *)
-From DF Require Import Prelude Constants_gen Region Mesh Ovf C09_layout C09_codec C09_faults C09_mesh C09_roundtrip C09_sidecar.
+From DF Require Import Prelude Constants_gen Region Mesh Ovf C09_layout C09_codec C09_faults C09_mesh C09_roundtrip C09_sidecar CheckSound Check_C09 C09_sound.
 Open Scope Q_scope.
 
 (* a binary file whose check value is not the one of its representation is rejected *)
@@ -301,3 +301,169 @@ Theorem C09_empty_sidecar_reads_none : forall (V : Type) (d : V) (rd : repr -> V
   decode d rd fl (Some []) = decode d rd fl None.
 Proof. exact empty_sidecar_reads_none. Qed.
 Print Assumptions C09_empty_sidecar_reads_none.
+
+(* ================================================================ soundness of the checker *)
+(* check_C09 is no longer only read: an accepted case certifies that the OBSERVED output agrees with
+   the model's value on the recorded input (field_agrees / file_agrees / sidecar_agrees: Leibniz
+   equality on strings, integers, flags, labels, units; == on rationals compared exactly; within
+   1e-9 relative for text values and inexact header numbers) *)
+Theorem C09_check_read_sound : forall fl side o,
+  check_C09 (CRead fl side (Some o)) = true ->
+  exists mf, decode 0 rdQ fl side = OK mf /\ field_agrees (f_rep fl) mf o.
+Proof. exact check_read_sound. Qed.
+Print Assumptions C09_check_read_sound.
+
+Theorem C09_check_read_refused_sound : forall fl side,
+  check_C09 (CRead fl side None) = true -> is_ok (decode 0 rdQ fl side) = false.
+Proof. exact check_read_refused_sound. Qed.
+Print Assumptions C09_check_read_refused_sound.
+
+Theorem C09_check_read_refusal_observed : forall fl side obs,
+  check_C09 (CRead fl side obs) = true -> is_ok (decode 0 rdQ fl side) = false -> obs = None.
+Proof. exact check_read_refusal_observed. Qed.
+Print Assumptions C09_check_read_refusal_observed.
+
+Theorem C09_check_write_sound : forall exact f rp extend ofl os,
+  check_C09 (CWrite exact f rp extend (Some (ofl, os))) = true ->
+  exists fld mf ms, build f = OK fld /\ encode 0 0 wrQ fld rp extend true = OK (mf, ms) /\
+    file_agrees exact mf ofl /\ opt_rel sidecar_agrees ms os.
+Proof. exact check_write_sound. Qed.
+Print Assumptions C09_check_write_sound.
+
+Theorem C09_check_write_refused_sound : forall exact f rp extend,
+  check_C09 (CWrite exact f rp extend None) = true ->
+  exists fld, build f = OK fld /\ is_ok (encode 0 0 wrQ fld rp extend true) = false.
+Proof. exact check_write_refused_sound. Qed.
+Print Assumptions C09_check_write_refused_sound.
+
+Theorem C09_check_round_sound : forall f rp extend o,
+  check_C09 (CRound f rp extend (Some o)) = true ->
+  exists fld fl sc mf, build f = OK fld /\ encode 0 0 wrQ fld rp extend true = OK (fl, sc) /\
+    decode 0 rdQ fl sc = OK mf /\ field_agrees rp mf o.
+Proof. exact check_round_sound. Qed.
+Print Assumptions C09_check_round_sound.
+
+Theorem C09_check_sidecar_sound : forall before ss sc obs,
+  check_C09 (CSidecar before ss sc obs) = true ->
+  opt_rel sidecar_agrees (sidecar_after before ss sc) obs.
+Proof. exact check_sidecar_sound. Qed.
+Print Assumptions C09_check_sidecar_sound.
+
+(* a whole shard: no failing index means every case was accepted *)
+Theorem C09_shard_verdict : forall cases k,
+  failing k (map check_C09 cases) = [] -> forall c, In c cases -> check_C09 c = true.
+Proof. exact (failing_nil_all check_C09). Qed.
+Print Assumptions C09_shard_verdict.
+
+(* the checker's own Region / Mesh / Field constructor calls establish wf_mesh, and with the guards of
+   C09_roundtrip stated on the RECORDED input they establish wf_ofield *)
+Theorem C09_build_wf_mesh : forall f fld,
+  build f = OK fld -> (length (i_p1 f) <= 10)%nat -> wf_mesh (of_mesh fld).
+Proof. exact build_wf_mesh. Qed.
+Print Assumptions C09_build_wf_mesh.
+
+Theorem C09_build_wf_ofield : forall f fld a b c,
+  build f = OK fld ->
+  length (i_p1 f) = 3%nat -> all_same (i_units f) = true -> (1 <= i_nv f)%nat ->
+  ((2 <= i_nv f)%nat -> exists l, i_vdims f = Some l /\ l <> [] /\ Forall label_ok l) ->
+  unit_ok (i_unit f) ->
+  i_n f = [a; b; c] ->
+  length (i_vals f) = (Z.to_nat a * (Z.to_nat b * (Z.to_nat c * i_nv f)))%nat ->
+  wf_ofield fld.
+Proof. exact build_wf_ofield. Qed.
+Print Assumptions C09_build_wf_ofield.
+
+(* ---------------------------------------------------------------- transfer: the theorems on the observation *)
+(* C09_faults_short / _tail / _check about the implementation's own answer: the damaged binary file
+   was REFUSED (no field came back) *)
+Theorem C09_accepted_short_refused : forall fl side obs,
+  check_C09 (CRead fl side obs) = true ->
+  is_binary (f_rep fl) = true -> (length (f_payload fl) < announced fl)%nat -> obs = None.
+Proof. exact accepted_short_refused. Qed.
+Print Assumptions C09_accepted_short_refused.
+
+Theorem C09_accepted_bad_tail_refused : forall fl side obs,
+  check_C09 (CRead fl side obs) = true ->
+  is_binary (f_rep fl) = true -> f_tail_ok fl = false -> obs = None.
+Proof. exact accepted_bad_tail_refused. Qed.
+Print Assumptions C09_accepted_bad_tail_refused.
+
+Theorem C09_accepted_bad_check_refused : forall fl side obs,
+  check_C09 (CRead fl side obs) = true ->
+  is_binary (f_rep fl) = true ->
+  (forall cv, f_check fl = Some cv -> ~ cv == check_value (f_rep fl)) -> obs = None.
+Proof. exact accepted_bad_check_refused. Qed.
+Print Assumptions C09_accepted_bad_check_refused.
+
+(* C09_foreign about the observed field: component count from the header and "x fastest" *)
+Theorem C09_accepted_read_layout : forall fl side o,
+  check_C09 (CRead fl side (Some o)) = true -> is_binary (f_rep fl) = true ->
+  o_nv o = file_vd fl /\
+  exists a b c, o_n o = [a; b; c] /\
+    let nx := Z.to_nat a in let ny := Z.to_nat b in let nz := Z.to_nat c in
+    length (o_vals o) = (nx * (ny * (nz * file_vd fl)))%nat /\
+    forall i j k cc, (i < nx)%nat -> (j < ny)%nat -> (k < nz)%nat -> (cc < file_vd fl)%nat ->
+      nth (cpos ny nz (file_vd fl) i j k cc) (o_vals o) 0
+      == nth (opos nx ny (file_vd fl) i j k cc) (f_payload fl) 0.
+Proof. exact accepted_read_layout. Qed.
+Print Assumptions C09_accepted_read_layout.
+
+(* C09_header about the observed file (exact regime) *)
+Theorem C09_accepted_write_header : forall f rp extend ofl os,
+  check_C09 (CWrite true f rp extend (Some (ofl, os))) = true ->
+  exists fld, build f = OK fld /\
+    f_v2 ofl = true /\ f_nodes ofl = i_n f /\ f_rep ofl = rp /\ f_tail_ok ofl = true /\
+    f_valuedim ofl = Some (Z.of_nat (if extend && (i_nv f =? 1)%nat then 3%nat else i_nv f)) /\
+    Forall2 Qeq (pmin (reg (of_mesh fld))) (f_min ofl) /\
+    Forall2 Qeq (pmax (reg (of_mesh fld))) (f_max ofl) /\
+    Forall2 Qeq (cell (of_mesh fld)) (f_step ofl) /\
+    opt_rel Qeq (match rp with RTxt => None | _ => Some (check_value rp) end) (f_check ofl).
+Proof. exact accepted_write_header. Qed.
+Print Assumptions C09_accepted_write_header.
+
+(* C09_roundtrip about the field the implementation read back (bin8, no scalar extension): the
+   recorded values themselves, cell counts, component count, unit, subregions, labels *)
+Theorem C09_accepted_roundtrip_bin8 : forall f extend o fld,
+  check_C09 (CRound f RBin8 extend (Some o)) = true ->
+  build f = OK fld -> wf_ofield fld ->
+  extend && (i_nv f =? 1)%nat = false ->
+  Forall2 Qeq (i_vals f) (o_vals o) /\ o_n o = i_n f /\ o_nv o = i_nv f /\ o_unit o = i_unit f /\
+  sidecar_agrees (i_subs f) (o_subs o) /\
+  ((2 <= i_nv f)%nat -> o_vdims o = of_vdims fld).
+Proof. exact accepted_roundtrip_bin8. Qed.
+Print Assumptions C09_accepted_roundtrip_bin8.
+
+(* C09_sidecar_overwritten / _not_saved about the side-car found on disk *)
+Theorem C09_accepted_sidecar_overwritten : forall old sc obs,
+  check_C09 (CSidecar (Some old) true sc obs) = true ->
+  exists o, obs = Some o /\ sidecar_agrees sc o.
+Proof. exact accepted_sidecar_overwritten. Qed.
+Print Assumptions C09_accepted_sidecar_overwritten.
+
+Theorem C09_accepted_sidecar_untouched : forall sc obs,
+  check_C09 (CSidecar None false sc obs) = true -> obs = None.
+Proof. exact accepted_sidecar_untouched. Qed.
+Print Assumptions C09_accepted_sidecar_untouched.
+
+(* non-vacuity: concrete accepted cases, and the recorded input of the first is well formed *)
+Example C09_accepted_roundtrip_instance : check_C09 (CRound wit_in RBin8 false (Some wit_obs)) = true.
+Proof. exact accepted_roundtrip_instance. Qed.
+Print Assumptions C09_accepted_roundtrip_instance.
+
+Example C09_accepted_roundtrip_instance_wf : exists fld, build wit_in = OK fld /\ wf_ofield fld.
+Proof. exact accepted_roundtrip_instance_wf. Qed.
+Print Assumptions C09_accepted_roundtrip_instance_wf.
+
+Example C09_accepted_short_instance :
+  let fl := mkFile true "m"%string [1#2; 1#2; 1#2] [2; 1; 1]%Z [1; 1; 1] [0; 0; 0] [2; 1; 1]
+                   (Some 1%Z) (Some ["field_x"%string]) (Some ["None"%string]) RBin8
+                   (Some (check_value RBin8)) [5] 1 true in
+  check_C09 (CRead fl None None) = true /\ is_binary (f_rep fl) = true /\
+  (length (f_payload fl) < announced fl)%nat.
+Proof. exact accepted_short_instance. Qed.
+Print Assumptions C09_accepted_short_instance.
+
+Example C09_accepted_sidecar_instance :
+  check_C09 (CSidecar (Some [("old"%string, ([0], [1]))]) true [] (Some [])) = true.
+Proof. exact accepted_sidecar_instance. Qed.
+Print Assumptions C09_accepted_sidecar_instance.
